@@ -55,6 +55,15 @@ func (hs *SimpleHotStuff) VoteRule(view hotstuff.View, proposal hotstuff.Propose
 	}
 
 	// Rule 2: can only vote if parent's view is greater than or equal to locked block's view.
+	// Processing this block moves the lock to the block certified by the parent's QC (see CommitRule).
+	// If that block cannot be obtained the lock cannot be moved: refuse to vote.
+	if lockHash := parent.QuorumCert().BlockHash(); lockHash != (hotstuff.Hash{}) {
+		if _, ok := hs.blockchain.Get(lockHash); !ok {
+			hs.logger.Info("VoteRule: block to lock on is not available")
+			return false
+		}
+	}
+
 	if parent.View() < hs.locked.View() {
 		hs.logger.Info("VoteRule: parent too old")
 		return false
